@@ -210,7 +210,7 @@ def skipObjectLoop (len : Nat) : Nat → Buf → Nat → IRes
 end
 
 /-- fuel that always suffices for `skipOne` on `buf` (proved in Lemmas/Fuel) -/
-def fuelFor (buf : Buf) : Nat := 2 * buf.size + 4
+def fuelFor (buf : Buf) : Nat := 3 * buf.size + 6
 
 /-- `parse_trailing` for the checked reader, reader at `i` -/
 def parseTrailing (buf : Buf) (len : Nat) (i : Nat) : IRes :=
